@@ -123,13 +123,20 @@ Ante(m, g, ev) ==
     [] m = "C09_payload"  -> o.op \in {"admin", "chk"} /\ ok
     [] m = "C09_frame"    -> TRUE
 
+\* who may make the call at all: the admin, or - for granting / revoking a role - a holder of that role's admin
+\* role (the controller can hold roles itself once a matured operation granted them to it)
+RoleOfCall(k) == CASE k \in {"grXs", "rvXx"} -> "executor" [] k \in {"grPs", "rvPp"} -> "proposer" [] OTHER -> "none"
+Authority(g, k) ==
+  \/ g.admin = "c"
+  \/ /\ RoleOfCall(k) # "none" /\ g.radm[RoleOfCall(k)] # "none"
+     /\ <<"c", g.radm[RoleOfCall(k)]>> \in g.roles
 Cons(m, g, ev) ==
   LET o == ev.op  ok == ev.res = "ok"  now == ev.now IN
   \* an admin-only function took effect: the controller is the admin, and the descriptor paired
   \* with this very call designates an operation for exactly this call that was Ready (predecessor
   \* Done) before and is Done after
   CASE m = "C09_consumed" ->
-         /\ g.admin = "c" /\ o.entry
+         /\ Authority(g, o.call) /\ o.entry
          /\ Len(o.metas) >= 1
          /\ LET i0 == OpFor(g, o.call, o.metas[1]) IN
             /\ i0 # NoOp /\ ReadyIn(g.o, i0, now) /\ PredDoneIn(g, g.o, i0)
